@@ -216,6 +216,8 @@ void SleepNs(std::uint64_t ns);
 // Profile string given with --profile (one binary can serve several properties with different generator weights and
 // oracles); "" if none.
 const char* Profile() noexcept;
+// true in the thorough tier (--tier thorough): generators use their larger bounds
+bool Thorough() noexcept;
 // true while the tree is simulated under the race variant (plain accesses traced)
 bool RaceBuild() noexcept;
 
